@@ -333,7 +333,11 @@ def run(ctx: core.Ctx) -> int:
         falsify_single(ctx, c)
         n = len(c["rows"])
         i = c["probes"][0] % max(1, n)
-        ops = [("calculate",), ("calculate",), ("calc_index", rng.choice([i, i - n, -1]) if n else -1, None),
+        # a single index, or a range [start, end) of indices (end may be negative too)
+        end = None
+        if n > 2 and rng.random() < 0.4:
+            end = rng.choice([min(n, i + rng.randint(1, 4)), -1, n])
+        ops = [("calculate",), ("calculate",), ("calc_index", rng.choice([i, i - n, -1]) if n else -1, end),
                ("recalculate",), ("purge",), ("calculate",)]
         corr.add(c["spec"], {}, c["rows"], ops, rng, {"kind": c["spec"]["kind"]})
         dist[c["spec"]["kind"]] = dist.get(c["spec"]["kind"], 0) + 1
